@@ -1391,6 +1391,20 @@ def _n_targets(seq, cfg):
     return sum(1 for i in seq if not isinstance(_L[i].item, cirq.Moment) and cfg.target(_L[i].item))
 
 
+def _measured_qubits(seq):
+    return sum(len(_L[i].item.qubits) for i in seq if not isinstance(_L[i].item, cirq.Moment) and cirq.is_measurement(_L[i].item))
+
+
+# defer_measurements adds one ancilla per measured qubit and the reference is a dense density matrix on all of them:
+# the thorough-only enumerations (length 4, wide alphabet) keep sequences with at most this many measured qubits
+# (measured: 2 two-qubit measurements = 3+4 qubits cost ~3 s per case, 3 of them minutes).  Lengths <= 3 are not filtered.
+DEFER_MAX_MEASURED_QUBITS_LONG = 4
+
+
+def _too_big(seq, cfg):
+    return cfg.family == "defer" and _measured_qubits(seq) > DEFER_MAX_MEASURED_QUBITS_LONG
+
+
 def _emit(cases, seq, layouts, cfgs):
     """Append (seq, layout, cfg, deep) for every admissible combination, circuit-major (the input reference is cached)."""
     for layout in layouts:
@@ -1443,7 +1457,7 @@ def stages(tier, seed):
             if not quick and top >= 3:
                 nondet = any(cfg.randomized for _, cfg in g)
                 for seq in _seqs(alpha[:6 if nondet else 9], (4,)):
-                    _emit(cases, seq, (0,) if any(0 in cfg.layouts for _, cfg in g) else (1,), g)
+                    _emit(cases, seq, (0,) if any(0 in cfg.layouts for _, cfg in g) else (1,), [x for x in g if not _too_big(seq, x[1])])
         # (3) thorough: length 3 over the wide alphabet, packed layout, deterministic passes
         if not quick:
             wcfgs = [(ci, cfg) for ci, cfg in fcfgs if not cfg.randomized]
@@ -1453,6 +1467,8 @@ def stages(tier, seed):
                     for ci, cfg in wcfgs:
                         if set(seq) <= relsets[ci]:
                             continue  # enumerated by (2)
+                        if _too_big(seq, cfg):
+                            continue
                         for deep in ((0, 1) if cfg.deep else (0,)):
                             cases.append((seq, cfg.layouts[0], ci, deep))
         out.append(CaseStage(fam, cases, run_case, reset=reset, describe=describe))
